@@ -202,9 +202,21 @@ func runC02(ctx *Ctx) error {
 			queued[m.MID()], _ = m.Bytes()
 		}
 		var cuts []string
+		// half of the histories keep the same handler objects over all sessions (a long-running
+		// client), the others open the mailbox anew for every session; a session may have B in
+		// send-only mode, which answers every proposal with a deferral
+		persist := di%2 == 0
+		deferB := false
 		sess := func(ca, cb int) (string, string) {
-			sa := fbb.NewSession(callA, callB, "JO59jw", mailbox.NewDirHandler(da, false))
-			sb := fbb.NewSession(callB, callA, "JP20qh", mailbox.NewDirHandler(db, false))
+			ha, hb := mailbox.NewDirHandler(da, false), mailbox.NewDirHandler(db, false)
+			if persist {
+				ha, hb = ma, mb
+			}
+			if deferB {
+				hb = mailbox.NewDirHandler(db, true)
+			}
+			sa := fbb.NewSession(callA, callB, "JO59jw", ha)
+			sb := fbb.NewSession(callB, callA, "JP20qh", hb)
 			sa.SetLogger(quietLogger)
 			sb.SetLogger(quietLogger)
 			sa.IsMaster(true)
@@ -252,6 +264,15 @@ func runC02(ctx *Ctx) error {
 			ctx.Mark(map[string]interface{}{"dir_history": di, "cuts": cuts})
 			sess(ca, cb)
 			check("faulty")
+		}
+		if di%3 != 1 {
+			// a complete session in which B defers everything it is offered
+			deferB = true
+			cuts = append(cuts, "B-defers")
+			ctx.Mark(map[string]interface{}{"dir_history": di, "cuts": cuts})
+			sess(-1, -1)
+			check("deferring")
+			deferB = false
 		}
 		ra, rb := sess(-1, -1)
 		check("clean")
